@@ -871,10 +871,15 @@ package anytype
 //@   ensures  jv: JV(result, self) [C02 C16]
 //@   ensures  float-marked: isWFloat(self) ==> floatMarked(result) [C01]
 
-//@ func quote trusted [C02]
+//@ func quote [C02 C01 C16]
 //@   assigns  nothing
 //@   panics_iff false
-//@   ensures  result == jquote(str)
+//@   ensures  literal: JQ(result, str)
+//@   loop 1
+//@     assigns cell(result)
+//@     invariant range: 0 <= idx && idx <= len(str)
+//@     invariant body: JB(deref(result), str, idx)
+//@     decreases len(str) - idx
 
 //@ extern strconv.Itoa pure
 //@   assigns  nothing
@@ -1127,10 +1132,25 @@ package anytype
 //@   panics_iff false
 //@   ensures  (result1 == nil) == pbOK(str) && (result1 == nil ==> result0 == pbVal(str))
 
-//@ func unquote trusted [C03]
+//@ extern strconv.Unquote pure
 //@   assigns  nothing
 //@   panics_iff false
-//@   ensures  true
+//@ extern strconv.ParseUint pure
+//@   assigns  nothing
+//@   panics_iff false
+//@ extern unicode/utf16.IsSurrogate pure
+//@   assigns  nothing
+//@   panics_iff false
+//@ extern unicode/utf16.DecodeRune pure
+//@   assigns  nothing
+//@   panics_iff false
+
+//@ func unquote [C03 C04]
+//@   assigns  nothing
+//@   panics_iff false
+//@   loop 1
+//@     invariant range: 0 <= i && i <= len(body)
+//@     decreases len(body) - i
 
 //@ func parseField [C04 C01 C03 C20]
 //@   assigns  nothing
